@@ -245,6 +245,99 @@ def clamp(x):
     return max(-100, min(100, x))
 
 
+class TwoBoards:
+    """op 5: two boards (WhoAmI, SYSOP) of one process; board b's index holds the entries idx[b] (entry numbers of entry(): the name
+    depends on the number only, so a number present in both boards is the SAME article file name, at different positions)"""
+    def __init__(self, rng, idx, uid=b"A1", ip=b"10.9.8.7"):
+        self.idx, self.uid, self.ip = idx, uid, ip
+        self.scores = [[rng.choice([-100, -99, 0, 7, 99, 100, rng.randrange(-100, 101)]) for _ in ix] for ix in idx]
+        self.dirs = [b"".join(entry(i, sc, rng.choice([0, 0, 1, 2, 16]), rng)[0] for i, sc in zip(ix, scs)) for ix, scs in zip(idx, self.scores)]
+        self.arts = [[b"board %d article %d\n--\n" % (b, i) for i in ix] for b, ix in enumerate(idx)]
+        self.steps = []        # (board, position in that board's index, type, text)
+
+    def line(self, steps=None):
+        steps = self.steps if steps is None else steps
+        g = ["5", toks(self.dirs[0]), toks(self.dirs[1]), toks(self.ip), toks(self.uid), "%d %d" % (len(self.idx[0]), len(self.idx[1]))]
+        g += [toks(a) for a in self.arts[0]] + [toks(a) for a in self.arts[1]]
+        g += [toks([b, j, ct] + list(txt)) for b, j, ct, txt in steps]
+        return "|".join(g)
+
+    def expected_digest(self, steps=None):
+        steps = self.steps if steps is None else steps
+        score = [list(x) for x in self.scores]
+        out = []
+        for b, j, ct, _ in steps:
+            new = clamp(score[b][j] + DELTA.get(ct, 0))
+            out.append("0 %d %d %d 1 0 0 0 0 1" % (ct if ct in MARK else 0, score[b][j], new))
+            score[b][j] = new
+        return out
+
+    def describe(self, steps=None):
+        steps = self.steps if steps is None else steps
+        nm = lambda b, j: entry(self.idx[b][j], 0, 0, __import__("random").Random(0))[1].decode()
+        return "WhoAmI holds entries %s, SYSOP holds entries %s (same number = same article file name); " % (self.idx[0], self.idx[1]) + \
+               ", ".join("%s on %s/%s (position %d)" % (TYPE_NAME.get(ct, "type %d" % ct), ("WhoAmI", "SYSOP")[b], nm(b, j), j) for b, j, ct, _ in steps[-6:])
+
+
+TWO_DOC = ("digest per step: status, type mark of the returned line, score of the addressed entry before, after, the addressed article of the addressed board grew by exactly "
+           "the returned line, other article files of that board changed, article files of the OTHER board changed, .DIR offsets outside Modified/Recommend of the addressed "
+           "entry, the OTHER board's .DIR changed, Modified = returned mtime = the file's own mtime")
+
+
+def split_two(res, n):
+    t = res.split()
+    if t[:1] != ["0"] or len(t) < 2 or int(t[1]) != n:
+        return None
+    out, pos = [], 2
+    for _ in range(n):
+        w = 3 if t[pos] == "3" else 10
+        out.append(" ".join(t[pos:pos + w])); pos += w
+    return out if pos == len(t) else None
+
+
+def judge_two(c, impl, tb, dg, label):
+    """direct predicate on a two-board session: the digest of the implementation's run against the reference written here; shrunk replay"""
+    def digest(st):
+        r = vf.run_impl(impl, "C10", [tb.line(st)], deadline_ms=120000)[0]
+        return split_two(r, len(st)) if r.split()[:1] == ["0"] else None
+
+    def bad(st, d):
+        if d is None:
+            return 0
+        for k, (e, g) in enumerate(zip(tb.expected_digest(st), d)):
+            if e != g:
+                return k
+        return None
+    k = bad(tb.steps, dg)
+    if k is None:
+        for (b, j, ct, _), d in zip(tb.steps, dg):
+            c.nontrivial(("two-boards", b, ct, tb.idx[b][j] in tb.idx[1 - b], tb.idx[b][j] in tb.idx[1 - b] and tb.idx[1 - b].index(tb.idx[b][j]) != j))
+        return
+    if "cross-board" in [v[0] for v in c.violations]:
+        return
+    steps, d = tb.steps[:k + 1], dg
+    budget, i = 16, len(steps) - 2
+    d = digest(steps)
+    if bad(steps, d) is None:          # not reproduced by this session alone in a fresh process: keep the whole history
+        steps, d = tb.steps, dg
+    else:
+        while i >= 0 and budget > 0:
+            trial = steps[:i] + steps[i + 1:]
+            budget -= 1
+            d2 = digest(trial)
+            k2 = bad(trial, d2)
+            if k2 is not None:
+                steps, d = trial[:k2 + 1], (d2[:k2 + 1] if d2 else None)
+                i = min(i, len(steps) - 1)
+            i -= 1
+        d = digest(steps)
+    kk = bad(steps, d)
+    exp = tb.expected_digest(steps)
+    c.violation("cross-board", "%s: a comment on one board does not have the outcome its own type and the addressed entry of THAT board determine: step %s got [%s], expected [%s]; %s [%s]"
+                % (label, kk, d[kk] if d and kk is not None else "no digest", exp[kk] if kk is not None else "", tb.describe(steps), TWO_DOC),
+                {"cases": [tb.line(steps)], "expected": "0 %d " % len(steps) + " ".join(exp), "got": "0 %d " % len(steps) + " ".join(d) if d else "no digest"})
+
+
 def main():
     c = vf.Check("C10")
     rng = c.rng
@@ -264,7 +357,9 @@ def main():
                   "PRNG(seed) stamps with sequences of <= 11 comments; board sessions (one entry stamped 2033/2038 in each): all 32 combinations of the "
                   "comment-related board attributes (aligned, IP log, no-comment, no-boo, no-fast-recommend) x FastRecommendPause {0,1,60,255} with 3 articles x 3 commenters "
                   "(different uid numbers, one with PERM_SYSOP) commenting back to back, and PRNG(seed) histories of <= 40 comments by 2-4 commenters on 2-4 articles "
-                  "(locked and link entries among them) with random attributes and pauses; every history is run twice (full observation, digest). A step is non-trivial if it "
+                  "(locked and link entries among them) with random attributes and pauses; every history is run twice (full observation, digest); two boards (WhoAmI, SYSOP) "
+                  "of one driver process planted with overlapping entry sets (6 layouts + PRNG(seed) repeats: the same article file name at different index positions), comments "
+                  "alternating between the boards on the common names plus 4-15 random ones, digest against the reference. A step is non-trivial if it "
                   "is a distinct (start score, type, board flags, text) accepted comment, a distinct refusal class, or in a board session a distinct (attributes, pause class, "
                   "type, saturated, what the previous step was: type / same commenter / same article)",
              assumptions=["the clock string of the line is observed from the implementation; the article file's mtime after the append is read by the driver itself (stat after the "
@@ -278,7 +373,10 @@ def main():
                           "sequential comments only: the non-blocking flock retry path and concurrent commenters are outside this check",
                           "board sessions issue their comments back to back (milliseconds apart) in one driver process, one board (bid 10); nothing in the verdict depends on the "
                           "clock: on the unchanged tree the outcome of a comment is a function of its type and the addressed entry. A rule that would need comments more than "
-                          "a pause apart to show (minutes of waiting) is not exercised"])
+                          "a pause apart to show (minutes of waiting) is not exercised",
+                          "two boards (op 5): validation only - no model and no theorem covers two boards; the digest (files and both indexes read straight from the disk before and "
+                          "after every step) is compared with the reference written in the check. Two boards, one process, one commenter with PERM_SYSOP; more boards, board "
+                          "copies made while the process runs and the look-up itself (cmsys.GetRecord, C06) are outside"])
 
 
 def judge(c, sc, steps, label):
@@ -668,6 +766,34 @@ def run(c, rng, thorough, impl, model):
         bss.append(bs)
     o = drive_boards(bss, "board sessions: random histories")
     c.sample({"op": "board session digest (random)", "attrs": bss[0].flags, "pause": bss[0].pause, "steps": len(bss[0].steps), "result": o[0][:160]})
+
+    # ---------------------------------------------------------------- 5. two boards of one process holding the same article file name
+    # WhoAmI and SYSOP are planted with overlapping sets of entries: the same file name sits at different positions of the two indexes
+    # (M.<second>.A.<hex> names collide across boards; copied boards). Comments alternate between the boards back to back in one driver
+    # process; every one must land in the article of that name of ITS board and move that entry only. No model for this op: the
+    # look-up is C06's subject; this is validation of the property's frame ("changes only that article's index entry") across boards.
+    tbs = []
+    layouts = [([0, 1, 2], [1, 2, 3]), ([0, 1, 2, 3], [2, 3]), ([1, 2], [0, 1, 2, 4]), ([0, 2, 4], [1, 2, 3, 4]), ([3], [0, 1, 2, 3]), ([0, 1, 2, 3, 4], [4])]
+    for la in layouts + [rng.choice(layouts) for _ in range(60 if thorough else 6)]:
+        tb = TwoBoards(rng, la, uid=rng.choice([b"A1", b"SYSOP", b"abcdefghijkl"]))
+        common = [i for i in la[0] if i in la[1]]
+        for i in common:              # the same name, board after board
+            for b in (0, 1, 0, 1):
+                tb.steps.append((b, la[b].index(i), rng.choice([1, 1, 2, 3]), text(30)))
+        tb.steps += [(b, rng.randrange(len(la[b])), rng.choice([1, 2, 3]), text(30)) for b in [rng.randrange(2) for _ in range(rng.randrange(4, 16))]]
+        tbs.append(tb)
+    lines = [tb.line() for tb in tbs]
+    o5 = vf.run_impl(impl, "C10", lines, deadline_ms=120000)
+    for tb, line, res in zip(tbs, lines, o5):
+        st = res.split()[0]
+        if st in ("1", "2"):
+            c.violation("crash" if st == "1" else "hang", "two boards: ptt.Recommend %s" % ("panics" if st == "1" else "hangs"), {"cases": [line], "got": res[:100]})
+            continue
+        if st != "0":
+            raise SystemExit("C10: bad case from the generator: " + line[:200])
+        judge_two(c, impl, tb, split_two(res, len(tb.steps)), "two boards holding the same article file name")
+    c.count(sum(len(tb.steps) for tb in tbs), "two boards holding the same article file name")
+    c.sample({"op": "two boards digest", "layout": tbs[0].idx, "steps": len(tbs[0].steps), "result": o5[0][:160]})
 
 
 if __name__ == "__main__":
